@@ -29,6 +29,7 @@ type storedRec struct {
 type snapshot struct {
 	heads   []string // ObjectTree.Heads()
 	iter    []string // ids in IterateRoot order
+	from    string   // IterateFrom(id) for every iterated id
 	root    string   // in-memory root
 	stored  []storedRec
 	sheads  []string // Storage.Heads()
@@ -38,14 +39,35 @@ type snapshot struct {
 func (t *treeWorld) observe() snapshot {
 	var s snapshot
 	tr := t.tree
-	tr.Lock()
-	s.heads = append([]string{}, tr.Heads()...)
-	s.root = tr.Root().Id
-	err := tr.IterateRoot(nil, func(c *objecttree.Change) bool {
-		s.iter = append(s.iter, c.Id)
-		return true
+	var err error
+	callCode("IterateRoot", func() {
+		tr.Lock()
+		defer tr.Unlock()
+		s.heads = append([]string{}, tr.Heads()...)
+		s.root = tr.Root().Id
+		err = tr.IterateRoot(nil, func(c *objecttree.Change) bool {
+			s.iter = append(s.iter, c.Id)
+			return true
+		})
+		var sb strings.Builder
+		for _, id := range s.iter {
+			sb.WriteString(id[len(id)-6:] + ":")
+			if !tr.HasChanges(id) {
+				// iteration reaches something the tree does not hold (IterateFrom would start at nil)
+				sb.WriteString("<not-held>;")
+				continue
+			}
+			e := tr.IterateFrom(id, nil, func(c *objecttree.Change) bool {
+				sb.WriteString(c.Id[len(c.Id)-6:] + ",")
+				return true
+			})
+			if e != nil {
+				sb.WriteString("err")
+			}
+			sb.WriteString(";")
+		}
+		s.from = sb.String()
 	})
-	tr.Unlock()
 	if err != nil {
 		broken("IterateRoot: %v", err)
 	}
@@ -85,6 +107,9 @@ func diffNoOp(a, b snapshot) string {
 	}
 	if strings.Join(a.iter, ",") != strings.Join(b.iter, ",") || a.root != b.root {
 		return "iteration"
+	}
+	if a.from != b.from {
+		return "iterate-from"
 	}
 	if len(a.stored) != len(b.stored) {
 		return "storage"
